@@ -1,3 +1,4 @@
+pub mod edits;
 pub mod op;
 pub mod rng;
 pub mod schema;
